@@ -237,8 +237,9 @@ RunDtors(S, r, c) ==
                            Sd  == ExecList(cd.dtor, Sin)
                        IN [Sd EXCEPT !.fr = SubSeq(@, 1, Len(@) - 1), !.sig = IF Sd.sig = "ret" THEN "ok" ELSE Sd.sig]
         IN RunDtors(S1, r, cd.base)
-DestroyObj(S, r) ==
-   LET S0 == [S EXCEPT !.heap[r].alive = FALSE]
+DestroyObj(Sx, r) ==
+   LET S  == IF Sx.grp /\ Ok(Sx) THEN [Sx EXCEPT !.out = Append(@, "<<obj")] ELSE Sx     \* inside a scope-exit bracket: one chunk per object
+       S0 == [S EXCEPT !.heap[r].alive = FALSE]
        \* a destructor may run while a `return` is propagating (scope exit): it runs as ordinary code
        S1 == RunDtors([S0 EXCEPT !.sig = IF S0.sig = "ret" THEN "ok" ELSE S0.sig], r, S0.heap[r].cls)
        S2 == [S1 EXCEPT !.sig = IF S1.sig = "ok" THEN S0.sig ELSE S1.sig]
@@ -249,20 +250,16 @@ DestroyObj(S, r) ==
 \* one scope die is not documented, so the reference brackets the output of a scope exit:
 \*   "<<scope"  { "<<obj" lines of one dying object ... }  ">>scope"
 \* and the comparison accepts any permutation of the "<<obj" chunks of one bracket.
-WillDie(S, v) == IsRef(v) /\ S.heap[v.r].alive /\ S.heap[v.r].rc = 1
-RECURSIVE DropMarked(_,_)
-DropMarked(S, vs) == IF vs = <<>> THEN S
-                     ELSE LET S1 == IF WillDie(S, vs[1]) /\ Ok(S) THEN [S EXCEPT !.out = Append(@, "<<obj")] ELSE S
-                          IN DropMarked(Dec(S1, vs[1]), Tail(vs))
-\* release a group of values whose relative order of death is not documented (the variables of one scope,
-\* the temporaries of one call expression)
+\* release a group of values whose relative order of release is not documented (the variables of one scope,
+\* the temporaries of one call expression). With two or more live objects in the group the order matters
+\* also for what dies by cascade (an object held by a field of another), so every object that dies while the
+\* group is released - directly or by cascade - is one "<<obj" chunk of the bracket.
 DropGroup(S1, vals) ==
-   LET \* objects whose every remaining reference is held by this group (aliases included)
-       refs == {vals[i].r : i \in {j \in 1..Len(vals) : IsRef(vals[j])}}
-       n  == Cardinality({r \in refs : S1.heap[r].alive /\ S1.heap[r].rc = Cardinality({i \in 1..Len(vals) : IsRef(vals[i]) /\ vals[i].r = r})})
-   IN IF n <= 1 \/ ~Ok(S1) THEN DropAll(S1, vals)
-      ELSE LET S2 == DropMarked([S1 EXCEPT !.out = Append(@, "<<scope")], vals)
-           IN [S2 EXCEPT !.out = Append(@, ">>scope")]
+   LET refs == {vals[i].r : i \in {j \in 1..Len(vals) : IsRef(vals[j])}}
+       n  == Cardinality({r \in refs : S1.heap[r].alive})
+   IN IF n <= 1 \/ ~Ok(S1) \/ S1.grp THEN DropAll(S1, vals)
+      ELSE LET S2 == DropAll([S1 EXCEPT !.out = Append(@, "<<scope"), !.grp = TRUE], vals)
+           IN [S2 EXCEPT !.out = Append(@, ">>scope"), !.grp = FALSE]
 PopScope(S) ==
    LET f == Len(S.fr)  k == Len(Top(S).sc)
        vals == [i \in 1..Len(Top(S).sc[k]) |-> Top(S).sc[k][i].v]
@@ -642,7 +639,7 @@ InitStatics(S, cs, fs) ==        \* cs: remaining classes, fs: remaining fields 
 
 Fuel == 600
 Start(prog) == [fr |-> <<[sc |-> <<<<>>>>, this |-> 0, cls |-> ""]>>, heap |-> <<>>, stat |-> <<>>, out |-> <<>>,
-                sig |-> "ok", rv |-> VVoid, err |-> "", fuel |-> Fuel, prog |-> prog]
+                sig |-> "ok", rv |-> VVoid, err |-> "", fuel |-> Fuel, prog |-> prog, grp |-> FALSE]
 Run(prog) ==
    LET S0 == Start(prog)
        S1 == IF prog.classes = <<>> THEN S0 ELSE InitStatics(S0, prog.classes, prog.classes[1].fields)
